@@ -33,7 +33,7 @@ type SweepIn struct {
 }
 
 var sweepSvcCode = map[string]int{"vnc": 1, "ssh-simulator": 2, "ipp": 3, "ftp-data-plain": 4, "ftp-data-tls": 5, "deploy": 6,
-	"redis": 7, "ldap": 8, "snmp": 9, "memcached": 10}
+	"redis": 7, "ldap": 8, "snmp": 9, "memcached": 10, "telnet": 11}
 
 func be16(v uint16) []byte { b := make([]byte, 2); binary.BigEndian.PutUint16(b, v); return b }
 func be32(v uint32) []byte { b := make([]byte, 4); binary.BigEndian.PutUint32(b, v); return b }
@@ -85,6 +85,25 @@ func vncScriptPaced(sc int) ([][]byte, int) {
 		return append(hs, burst), -1
 	default:
 		return hs, -1
+	}
+}
+
+// telnet: input that fills a fixed-size internal buffer without ever completing a token
+func telnetScript(sc int) [][]byte {
+	rep := func(b byte, n int) []byte { return []byte(strings.Repeat(string([]byte{b}), n)) }
+	switch sc {
+	case 0: // ESC + 255 bytes without a final letter: the 256-byte input buffer is full of an unfinished key sequence
+		return [][]byte{cat([]byte{0x1b}, rep('1', 255))}
+	case 1: // the same in two writes, after a user name
+		return [][]byte{[]byte("root\r\n"), cat([]byte{0x1b, '['}, rep('1', 100)), rep('1', 200)}
+	case 2: // an ordinary login and a command
+		return [][]byte{[]byte("root\r\n"), []byte("secret\r\n"), []byte("ls\r\n"), []byte("exit\r\n")}
+	case 3: // 5000 bytes without a line end
+		return [][]byte{rep('a', 5000)}
+	case 4: // ESC sequences back to back, 300 bytes, and telnet IAC bytes
+		return [][]byte{cat(rep(0x1b, 300), rep(0xff, 300))}
+	default: // exactly one byte short of the buffer, then silence or close
+		return [][]byte{cat([]byte{0x1b}, rep('1', 254))}
 	}
 }
 
@@ -226,10 +245,16 @@ func runSweepConn(svc services.Servicer, sp Spec, idx int) (ob ConnObs, gone boo
 					ch.Close()
 				}
 			} else if sess, err := cl.NewSession(); err == nil {
-				if in.Scenario == 0 {
+				if in.Scenario == 0 || in.Scenario == 4 {
 					if w, err := sess.StdinPipe(); err == nil {
 						sess.Shell()
-						w.Write([]byte("ls\n"))
+						if in.Scenario == 0 {
+							w.Write([]byte("ls\n"))
+						} else {
+							// the shell's line editor has the same 256-byte key-sequence buffer as telnet's
+							w.Write(telnetScript(0)[0])
+							w.Write([]byte("more"))
+						}
 					}
 				}
 				time.Sleep(5 * time.Millisecond)
@@ -246,6 +271,8 @@ func runSweepConn(svc services.Servicer, sp Spec, idx int) (ob ConnObs, gone boo
 			segs = vncScript(in.Scenario)
 		case "ipp":
 			segs = ippScript(in.Scenario)
+		case "telnet":
+			segs = telnetScript(in.Scenario)
 		default:
 			segs = [][]byte{[]byte("SSH-2.0-x\r\n")}
 		}
